@@ -141,7 +141,7 @@ def gen_cases(ctx):
         yield from pool_cases(ctx)
         return
     names = ["triclinic", "monoclinic", "orthorhombic", "tetragonal", "hexagonal"]
-    nrel = ctx.scale(40, 700)
+    nrel = ctx.scale(40, 4000)
     # distribute over the relation shards
     irel, nrs = ctx.spec.get("irel", 0), ctx.spec.get("nrel", 1)
     for i in range(nrel):
